@@ -175,8 +175,14 @@ int aws_format_standard_log_line(struct aws_logging_standard_formatting_data *fo
     }
 
     /*
-     * End with a newline.
+     * End with a newline.  If one of the writes above was truncated, the index was clamped to fake_total_length, but
+     * snprintf stored one character less and put its terminator into the last byte it was given: step back onto that
+     * terminator, otherwise the line ends in two NULs instead of a newline.
      */
+    if (current_index == fake_total_length && current_index > 0) {
+        --current_index;
+    }
+
     int newline_written_count =
         snprintf(formatting_data->log_line_buffer + current_index, formatting_data->total_length - current_index, "\n");
     if (newline_written_count < 0) {
